@@ -40,6 +40,8 @@ FEATURES = {
     "lambda-kwonly-param": "print((lambda *, {X}: str({X})[:4])({X}='kw'), (lambda *{X}: len({X}))(1, 2), (lambda **{X}: sorted({X}))(a_=1))",
     "lambda-star-and-kwargs": "print((lambda *a_, **{X}: (a_, sorted({X})))(1, k_=2), (lambda *{X}, **k_: ({X}, sorted(k_)))(1, k2_=2), (lambda z_, *a_, y_=1, **{X}: (z_, y_, sorted({X})))(0, q_=3))",
     "def-star-and-kwargs": "def h3_(*a_, **{X}):\n    return a_, sorted({X})\ndef h4_(*{X}, **k_):\n    return {X}, sorted(k_)\nprint(h3_(1, k_=2), h4_(1, k2_=2))",
+    "chain-pattern-then-name": "a1_, b1_ = c1_ = [1, 2]\n(d1_, e1_), f1_ = g1_ = h1_ = [(3, 4), 5]\ni1_ = j1_, *k1_ = l1_ = iter([6, 7, 8])\nprint(a1_, b1_, c1_, d1_, e1_, f1_, g1_, g1_ is h1_, j1_, k1_, type(i1_).__name__, i1_ is l1_, list(l1_))",
+    "nested-comprehension-variable": "print([[{X} * c_ for c_ in [1, 2]] for {X} in [3, 4]], [[f_ + {X} for f_ in [c_]] for c_ in [1] for {X} in [5]], (lambda {X}: [{X} + d_ for d_ in [1]])(6), [[e_ for e_ in [{X}]] for {X} in [7] if {X}])",
     "def-default-same-name": "def h2_({X}={X}, *, kw_={X}):\n    return str({X})[:4], str(kw_)[:4]\nprint(h2_())",
     "return-reads": "def r2_():\n    for j_ in [1, 2]:\n        if j_ == 2:\n            return str({X})[:4]\n    return None\nprint(r2_())",
 }
